@@ -19,7 +19,7 @@ def sh(cmd, cwd=None, env=None, timeout=3600):
 def one(d):
     name = os.path.basename(d)
     meta = json.load(open(os.path.join(d, "meta.json")))
-    checks = list((meta.get("caught_by") or {}).keys()) or [meta["property"]]
+    checks = list((meta.get("checks") or meta.get("caught_by") or {}).keys()) or [meta["property"]]
     wt = tempfile.mkdtemp(prefix="seedrc-", dir="/tmp")
     os.rmdir(wt)
     sh(f"git -C /repo worktree add -q --detach {wt} HEAD")
@@ -32,7 +32,7 @@ def one(d):
         res = {}
         verdict = "MISSED"
         for c in checks:
-            rc, out = sh(f"./check {c} quick", cwd=ROOT, env=dict(ENV, VERIF_REPO=wt, VERIF_SEED=str(7 + hash(name) % 5)))
+            rc, out = sh(f"./check {c} quick", cwd=ROOT, env=dict(ENV, VERIF_REPO=wt, VERIF_SEED=os.environ.get("RECHECK_SEED", "1")))
             v = [l for l in out.split("\n") if l.startswith("VIOLATION")]
             res[c] = {"exit": rc, "violations": len(v), "no_failing_input": all("no-failing-input-found" in l for l in v) if v else None}
             if rc == 1 and v:
@@ -45,12 +45,19 @@ def one(d):
 def main():
     par = int(sys.argv[1]) if len(sys.argv) > 1 else 6
     dirs = sorted(d for d in glob.glob("/verif/seeded/*") if os.path.isdir(d) and os.path.exists(os.path.join(d, "patch.diff")))
+    only = os.environ.get("RECHECK_ONLY")
+    if only:
+        dirs = [d for d in dirs if os.path.basename(d) in only.split(",")]
     out = {}
     with cf.ThreadPoolExecutor(par) as ex:
         for name, r in ex.map(one, dirs):
             out[name] = r
             print(name, r["result"], flush=True)
-    json.dump(out, open("/verif/seeded/RECHECK.json", "w"), indent=1)
+    prev = {}
+    if only and os.path.exists("/verif/seeded/RECHECK.json"):
+        prev = json.load(open("/verif/seeded/RECHECK.json"))
+    prev.update(out)
+    json.dump(prev, open("/verif/seeded/RECHECK.json", "w"), indent=1)
     from collections import Counter
     print(Counter(r["result"] for r in out.values()))
 
